@@ -95,6 +95,9 @@ def c03(ctx):
             continue
         n += 1
         NL.accessor_laws(ctx, db, r[0])
+        # "for every sequence": extend/collect (by value and by reference) are add in a loop from the current state
+        import forward_rules as FW
+        FW.r_forward_ingest(ctx, db, r[0], max_items=2)
         kind = t.split("::")[-1]
         for k in ((2, 3, 4, 5) if ctx.tier == "quick" else (2, 3, 4, 5, 6, 7)):
             NL.stream_definitions(ctx, db, r[0], k, NL.defs_moments(kind), min_k={"sample_variance": 2, "error_mean": 2, "skewness": 2, "kurtosis": 2})
@@ -125,6 +128,9 @@ def c04(ctx):
                 continue
             n += 1
             R.r_binom(ctx, db, t, N_)
+            if cfg == "B" and t in INGEST_TYPES:
+                import forward_rules as FW
+                FW.r_forward_ingest(ctx, db, r[0], max_items=2)
             ks = (2, 3, N_ + 1) if ctx.tier == "quick" else tuple(range(2, N_ + 3))
             defs = {k_: v for k_, v in NL.defs_moments("Moments", N_).items() if k_ not in ("sample_skewness", "sample_excess_kurtosis", "sample_variance")}
             for k in ks:
@@ -397,6 +403,8 @@ def c06(ctx):
     for e, ln, consts in hs:
         n += 1
         H.r_find_add(ctx, dba, e, ln, consts)
+        if ln <= 4:
+            H.r_find_add(ctx, dba, e, ln, consts, strict=False, bsearch="core")   # repeated edges, as for the macro sibling
         H.r_const_width_monotone(ctx, dba, e, ln, consts)
         H.r_accessors(ctx, dba, e, ln, consts)
     ctx.floor("histogram instantiations analysed (find/add)", n, 6)
@@ -446,6 +454,8 @@ def c13(ctx):
         H.r_iter_views(ctx, dba, e, ln, consts)
         H.r_iter_overrides(ctx, dba, e, ln, consts)
         H.r_hist_clone(ctx, dba, e, ln, consts)
+        if ln <= 10:
+            H.r_views_special_values(ctx, dba, e, ln, consts)
     ctx.floor("histogram instantiations analysed (merge/views)", n, 6)
 
 
@@ -766,6 +776,10 @@ def c17(ctx):
     for e, ln, consts in hist_types(ctx, db):
         if ln <= 4:
             H.r_bin_variance_range(ctx, db, e, ln, consts)
+    dba, hs = hist_const_types(ctx)
+    for e, ln, consts in hs:      # the const-generic sibling (nightly feature) has its own variance code
+        if ln <= 4:
+            H.r_bin_variance_range(ctx, dba, e, ln, consts)
     ctx.floor("estimator types analysed for signs/ranges", n, 10)
 
 
@@ -889,6 +903,8 @@ PROPS["C10"]["explanation"] += (" The n of the formulas is the number of observa
 PROPS["C07"]["explanation"] += " Default::default() is new(0.5) field by field (the state concatenate! starts from)."
 PROPS["C01"]["explanation"] += (" Estimate::estimate returns the headline statistic, and extend/collect (f64 and &f64) are add in a loop from the current state, "
                                  "uniformly in the item position (R-FORWARD).")
+for _p in ("C03", "C04"):
+    PROPS[_p]["explanation"] += " extend/collect (f64 and &f64) are add in a loop from the current state (R-FORWARD)."
 PROPS["C09"]["explanation"] += " No inherent method shadows a trait method of the same name with a different body (R-SIB inherent-vs-trait)."
 PROPS["C17"]["explanation"] += (" R-UNDERFLOW: the range clause has no absolute slack (denormals are in the domain), so the new mean of add/merge may contain at most one "
                                  "operation that can round a subnormal (a product with a non-integer, a quotient), at the root or as the increment of the stored mean, "
